@@ -365,7 +365,7 @@ pub proof fn lemma_cleaned_grows(res: FilesResource, d: Seq<Del>, p: Seq<PathBuf
                     }
 //@after 0 `for output_path in &resource.paths`
                     proof { assert(res_cleaned(*resource, w.deleted, w.probed)); }
-//@after 0 `if resource.extensions.is_some()`
+//@after 0 `if resource.extensions.is_`
             proof {
                 // [C12.deletes] this resource is dealt with, and the earlier ones stay dealt with (the logs only grew)
                 assert(grows(d_it, w.deleted) && grows(p_it, w.probed));
